@@ -8,6 +8,7 @@ import (
 	"strconv"
 	"time"
 
+	"verifharness/internal/c09"
 	"verifharness/internal/core"
 	_ "verifharness/internal/props"
 )
@@ -51,6 +52,15 @@ func main() {
 		journal := fs.String("journal", "", "")
 		fs.Parse(os.Args[2:])
 		os.Exit(core.WorkerMain(*prop, *tier, *seed, *phase, *shard, *nshards, *out, *journal))
+	case "gen-corpus":
+		n := 3000
+		if len(os.Args) > 3 {
+			n, _ = strconv.Atoi(os.Args[3])
+		}
+		if err := c09.GenCorpus(os.Args[2], n); err != nil {
+			fmt.Fprintln(os.Stderr, err)
+			os.Exit(1)
+		}
 	case "replay":
 		if len(os.Args) < 3 {
 			fmt.Fprintln(os.Stderr, "usage: vcheck replay <file>")
